@@ -197,10 +197,8 @@ def run_unit(unit, rec):
                    script=_script(spec, [t], okw))
             # c: global optimality of the weighted residual
             val = float(np.linalg.norm(w * (Abar @ x + c0 - t)))
-            if n <= 6:
-                opt, xs = O.box_lsq(Abar, t, lo, hi, w=w, c0=c0)
-            else:
-                _, xs, opt = O.box_lsq_certified(Abar, t, lo, hi, w=w, c0=c0)
+            # `opt` = residual of a feasible point (exact optimum for n <= 6): an UPPER bound of the optimum is what refutes optimality
+            opt, xs, _ = O.box_lsq_bounds(Abar, t, lo, hi, w=w, c0=c0)
             cls = "in-gamut" if opt <= 1e-9 * max(1.0, ext) else "outside"
             if in_regime:
                 rec.distinct((spec, unit["solver"], api, idx))
@@ -231,7 +229,7 @@ def run_unit(unit, rec):
             x = X[idx]
             wi = Wm[idx]
             val = float(np.linalg.norm(wi * (Abar @ x + c0 - t)))
-            opt, xs = O.box_lsq(Abar, t, lo, hi, w=wi, c0=c0) if n <= 6 else O.box_lsq_certified(Abar, t, lo, hi, w=wi, c0=c0)[::2]
+            opt, xs, _ = O.box_lsq_bounds(Abar, t, lo, hi, w=wi, c0=c0)
             if regime_sys and np.max(np.abs(t)) <= 100.0:
                 rec.distinct((spec, "W", idx))
                 if val > opt + cap_tol * 1.5:
